@@ -14,6 +14,7 @@ import (
 	"strconv"
 	"strings"
 	"sync"
+	"syscall"
 	"time"
 
 	"github.com/ja7ad/otp"
@@ -99,6 +100,16 @@ func restDead() bool {
 
 func stopRest() {
 	if restCmd != nil && restCmd.Process != nil {
+		if os.Getenv("VERIF_REST_TERM") != "" {
+			// a graceful stop: a server built with Go's block counters writes them when main returns
+			keepClient.CloseIdleConnections() // the server's shutdown waits for open connections
+			restCmd.Process.Signal(syscall.SIGTERM)
+			select {
+			case <-restExited:
+				return
+			case <-time.After(10 * time.Second):
+			}
+		}
 		restCmd.Process.Kill()
 		<-restExited
 	}
